@@ -7,6 +7,7 @@ package node
 //@ import "github.com/mosaicnetworks/babble/src/common"
 //@ import "github.com/mosaicnetworks/babble/src/peers"
 //@ import hg "github.com/mosaicnetworks/babble/src/hashgraph"
+//@ import "github.com/mosaicnetworks/babble/src/net"
 
 // ------------------------------------------------------------------------------------------------
 // Fast-forward (C12, C14, C10)
@@ -19,7 +20,10 @@ package node
 //@   ensures[accept-signatures]  ret0 == nil ==> (exists ps *peers.PeerSet :: ps != nil && __eq(old(ps.Peers), old(frame.Peers)) && old(ps.WF()) && old(hg.SignedByMoreThanThird(block, ps)))
 //@   ensures[validators-latest] ret0 == nil ==> c.validators != nil && ((forall r int :: __in(r, frame.PeerSets) ==> r <= frame.Round) ==> __eq(c.validators.Peers, frame.Peers)) && (forall r int :: __in(r, frame.PeerSets) && r > frame.Round ==> (exists m int :: __in(m, frame.PeerSets) && m >= r && (forall r2 int :: __in(r2, frame.PeerSets) ==> r2 <= m) && __eq(c.validators.Peers, frame.PeerSets[m])))
 //@   ensures[trusted-signer]    ret0 == nil ==> (exists v string :: (exists k string :: __in(k, old(block.Signatures)) && v == common.Enc(common.KeyBytesOf(k)) && hg.BlockSigOK(block, common.KeyBytesOf(k), old(block.Signatures)[k])) && (__in(v, old(c.peers.ByPubKey)) || __in(v, old(c.genesisPeers.ByPubKey)) || __in(v, old(c.validators.ByPubKey))))
-//@   loop 1 invariant[latest]   c.validators != nil && lastRound >= frame.Round && (forall r int :: __vis(r) ==> r <= lastRound) && ((lastRound == frame.Round && __eq(c.validators.Peers, frame.Peers)) || (lastRound > frame.Round && __in(lastRound, frame.PeerSets) && __eq(c.validators.Peers, frame.PeerSets[lastRound])))
+//@   loop 1 invariant[peers]    forall i int :: 0 <= i && i < __idx() ==> frame.Peers[i] != nil
+//@   loop 2 invariant[sets]     forall r int :: __vis(r) ==> (forall i int :: 0 <= i && i < len(frame.PeerSets[r]) ==> frame.PeerSets[r][i] != nil)
+//@   loop 3 invariant[set]      forall i int :: 0 <= i && i < __idx() ==> ps[i] != nil
+//@   loop 4 invariant[latest]   c.validators != nil && lastRound >= frame.Round && (forall r int :: __vis(r) ==> r <= lastRound) && ((lastRound == frame.Round && __eq(c.validators.Peers, frame.Peers)) || (lastRound > frame.Round && __in(lastRound, frame.PeerSets) && __eq(c.validators.Peers, frame.PeerSets[lastRound])))
 //@   ensures[refused-untouched]  ret0 != nil && !__called("Reset") ==> __unchanged(c.validators, c.peers, c.peerSelector, c.head, c.seq, c.hg)
 //@   ensures[refused-untouched-hg]  ret0 != nil && !__called("Reset") ==> __eq(c.hg.Snapshot(), old(c.hg.Snapshot()))
 
@@ -28,3 +32,13 @@ package node
 //@   requires peerSet != nil
 //@   modifies nothing
 //@   ensures[nonnil] ret0 != nil
+
+//@ func (n *Node) getBestFastForwardResponse() *net.FastForwardResponse
+//@   trusted not verified (asks every peer and keeps the answer with the highest block index); the answer is remote-controlled data
+//@   requires n != nil
+//@   modifies nothing
+//@   ensures[resp] ret0 == nil || (len(ret0.Frame.Peers) < 2147483648 && (forall r int :: __in(r, ret0.Frame.PeerSets) ==> len(ret0.Frame.PeerSets[r]) < 2147483648))
+
+//@ func (n *Node) fastForward() error
+//@   requires n != nil && n.core != nil && n.core.hg != nil && n.core.validator != nil && n.proxy != nil
+//@   call Restore assert[restore-after-check] __called("fastForward") && __lastret("fastForward", 0) == nil
